@@ -201,7 +201,8 @@ func (s *astate) setRange(src string, signed bool, lo, hi int64) {
 	if uint64(lo) > cur[0] {
 		cur[0] = uint64(lo)
 	}
-	if uint64(hi) < cur[1] {
+	// math.MaxInt64 stands for "no upper bound" (an unsigned 64-bit source can be larger)
+	if hi != math.MaxInt64 && uint64(hi) < cur[1] {
 		cur[1] = uint64(hi)
 	}
 	s.facts[src] = cur
